@@ -360,8 +360,9 @@ def run(chk: core.Check):
     wsd = chk.wd / "ws"
     wsd.mkdir(exist_ok=True)
     tlc.prepare(wsd, {"Zoo.tla": zoo.render_tla(zoo.BASIC, poolset="ws")})
-    wsraw = gen_cases(chk, "props", PROFILES["props"][2], wd=wsd, tag="/ws")
-    chk.bounds["props/ws"] = {"MaxObjs": PROFILES["props"][2], "MaxTuple": 1, "classes": PROFILES["props"][0], "poolset": "ws"}
+    wsn = PROFILES["props"][2 if quick else 3]
+    wsraw = gen_cases(chk, "props", wsn, thorough=not quick, wd=wsd, tag="/ws")
+    chk.bounds["props/ws"] = {"MaxObjs": wsn, "MaxTuple": 1, "classes": PROFILES["props"][0], "poolset": "ws"}
     nstretch = 0
     for raw in wsraw:
         c = tlc.decode(raw)
